@@ -8,7 +8,12 @@ RULE = ('formulas from three sources - parsed from generated strings, built by r
         'string, dict, nested sequence, copy; operators +, n*, +=), and returned by mix_by_weight / mix_by_volume - are '
         'printed with str() and the printed string is parsed again; counts are log-uniform over [1e-9, 1e9] with the band '
         'that %g prints in exponent form (>= 999999.5 or < 1e-4) confined to about 10 % of the cases and D/T (and their '
-        'ions) to about 5 %. distinct = distinct (source, printed shape) pairs, the shape being the printed string with '
+        'ions) to about 5 %; a further sixth of the cases, from all three sources, takes its atom, group and multiplier counts '
+        '(and the relative amounts of mixture components) from the notation boundaries of %g: next to 1e6 and 1e-4 on '
+        'both sides of the point where six-digit rounding changes the notation, and 10^k(1 +- d) for k in -9..12 where the '
+        'rounding carries into the next power of ten. Named formulas (keyword, attribute, kept by n*f, mixtures) take their '
+        'names from plain ones and from names with apostrophes, double quotes, backslashes, control characters, non-ASCII '
+        'text, leading/trailing spaces, %-directives and names that look like formulas. distinct = distinct (source, printed shape) pairs, the shape being the printed string with '
         'symbols, isotope/ion tags and counts abstracted to E/I/Q/n/f; non-trivial = the printed string has a count, a '
         'tag or a group')
 SHARDS = {'quick': 8, 'thorough': 16}
@@ -29,7 +34,8 @@ LEVEL_NOTE = ('Trusted: pvmon/gen/formulas.py and pvmon/gen/programs.py (workloa
 ASSUMPTIONS = ['"same nesting" is compared modulo groups of count 1, which the printed form cannot carry',
                'a count exactly half way between two six-digit values may round either way',
                'zero counts and empty groups are not generated (the property quantifies over positive counts)',
-               'for a named formula only str(f) == name and the repr form are demanded']
+               'for a named formula only str(f) == name and the repr form are demanded; the repr form is the literal text '
+               'formula(\'<str(f)>\') of the property, whatever characters the name holds (no quoting or escaping of the name)']
 
 _s = {}
 
@@ -157,6 +163,12 @@ def _walk_counts(ctx, structure):
             ctx.count('counts.compared')
             if round6(c)[0] != c:
                 ctx.count('counts.needing-more-than-6-digits')
+            if 999999.5 <= c < 1e6:
+                ctx.count('counts.rounding-up-into-exponent-notation')
+            elif 0.00009999995 <= c < 1e-4:
+                ctx.count('counts.rounding-up-out-of-exponent-notation')
+            elif c != round6(c)[0] and Decimal(repr(round6(c)[0])).adjusted() != Decimal(repr(float(c))).adjusted():
+                ctx.count('counts.rounding-up-to-next-power-of-ten')
             if isinstance(c, float) or (isinstance(c, numbers.Real) and not isinstance(c, numbers.Integral)):
                 ctx.count('counts.float')
         if isinstance(frag, (list, tuple)):
@@ -249,7 +261,20 @@ def _judge(ctx, f, T, case, source):
 def check_parsed(ctx, case):
     import periodictable as pt
     T = _s['tables'][case.get('table', 'public')]
-    f = pt.formula(case['text'], table=T)
+    name = case.get('name')
+    if name is None:
+        f = pt.formula(case['text'], table=T)
+    else:
+        ctx.count('named.hostile')
+        how = case.get('name_how', 'keyword')
+        if how == 'attribute':
+            f = pt.formula(case['text'], table=T)
+            f.name = name
+        else:
+            f = pt.formula(case['text'], table=T, name=name)
+            if how == 'multiplied':
+                _judge(ctx, f, T, case, 'parsed')
+                f = 3 * f             # the product is a copy: it keeps the name
     _judge(ctx, f, T, case, 'parsed')
 
 
@@ -353,7 +378,8 @@ def setup(ctx):
         ctx.require('contract._str_atoms', 1, 'the _str_atoms postcondition must have been evaluated')
         for name in ('formulas.parsed', 'formulas.arithmetic', 'formulas.mixture', 'named', 'feature.dt',
                      'counts.needing-more-than-6-digits', 'counts.float', 'groups.count-1', 'groups.counted',
-                     'mixture.weight', 'mixture.volume'):
+                     'mixture.weight', 'mixture.volume', 'named.hostile', 'counts.rounding-up-into-exponent-notation',
+                     'counts.rounding-up-out-of-exponent-notation', 'counts.rounding-up-to-next-power-of-ten'):
             ctx.require(name, 1, 'workload feature demanded by the property quantifier')
 
 
@@ -379,16 +405,60 @@ def positional(v, digits):
     return text
 
 
+# counts around the two points where %g changes notation (the window [999999.5, 1e6) rounds up INTO exponent
+# form, [0.00009999995, 0.0001) rounds up OUT of it), and counts that carry into the next power of ten
+NOTATION_BOUNDARY = ['999999', '999999.4', '999999.49', '999999.499999', '999999.5', '999999.500001', '999999.51',
+                     '999999.7', '999999.9', '999999.99', '999999.999999', '1000000', '1000000.4', '1000000.5',
+                     '1000001', '1000001.5', '1000010', '999998.5', '999999.05', '9999995', '9999994.9', '99999950',
+                     '0.000099999', '0.0000999994', '0.00009999949', '0.0000999995', '0.00009999951', '0.00009999996',
+                     '0.0000999999999', '0.0001', '0.0001000001', '0.00010000049', '0.0001000005', '0.000100001',
+                     '0.00001', '0.0000099999951', '0.00099999951',
+                     '9.999995', '9.9999949', '9.9999951', '99.99995', '99.999951', '999.9995', '999.99951',
+                     '9999.995', '9999.9951', '99999.95', '99999.949', '99999.951', '0.9999995', '0.99999951',
+                     '0.99999949', '0.09999995', '0.099999951', '0.009999995', '0.0099999951', '0.0009999995']
+
+# names a material may legitimately have, hostile to any quoting, escaping or %-formatting of the name
+HOSTILE_NAMES = ["Wood's metal", "Field's metal", "Rochelle's salt", "Devarda's alloy", "'", "''", "it's \"quoted\"",
+                 '5" wafer', '"', 'a\\b', 'C:\\data\\sample', '\\', "back\\'tick", 'tab\there', 'line\nbreak',
+                 'cr\rlf\n', 'bell\x07', '\u00b5-metal', '\u03b2-casein', '\u6c34', 'caf\u00e9 au lait', '\u2028sep',
+                 'nbsp\u00a0name', ' leading space', 'trailing space ', '  ', 'H2O', 'D2O@1n', 'Fe{2+}', '(', ')',
+                 "formula('x')", "formula(\"Wood's\")", '%s', '100%', '%d %(name)s', '{0} {name}', '{', '0', 'None',
+                 'x' * 300, '\x7f', '\ud7ff', 'emoji \U0001f9ea']
+
+
 class Counts(object):
     """Count generator shared by the three sources; *hot* admits the exponent band."""
 
     def __init__(self, rng):
         self.rng = rng
         self.hot = False
+        self.boundary = False
+
+    def boundary_value(self, lo=-9, hi=12):
+        """(text, Fraction) of a count at a notation boundary of %g: next to 1e6 and 1e-4 (where %g changes
+        between positional and exponent form, decided AFTER rounding to six digits), or next to any power of
+        ten, on either side of the point where six-digit rounding carries into the next power."""
+        rng = self.rng
+        if rng.random() < 0.5:
+            text = rng.choice(NOTATION_BOUNDARY)
+        else:
+            k = rng.choice([6, 6, -4, -4, rng.randint(lo, hi)])
+            delta = rng.choice(['4e-7', '4.9e-7', '4.99999e-7', '5e-7', '5.00001e-7', '5.1e-7', '6e-7', '3e-7', '1e-7',
+                                '1e-9', '1e-12', '9e-7', '1e-6', '1.4e-6', '1.5e-6', '0'])
+            d = Decimal(1).scaleb(k) * (Decimal(1) + Decimal(rng.choice(['-', '-', '-', '+']) + delta))
+            text = format(d, 'f')
+            if '.' in text:
+                text = text.rstrip('0').rstrip('.')
+        v = Fraction(text)
+        if v == 1 or v <= 0:
+            return self.boundary_value(lo, hi)
+        return text, v
 
     def value(self):
         """(text, Fraction) of a positive count other than 1, positional notation."""
         rng = self.rng
+        if self.boundary and rng.random() < 0.6:
+            return self.boundary_value()
         while True:
             r = rng.random()
             if r < 0.30:
@@ -464,7 +534,8 @@ def generate(ctx):
         fg.count = counts.string_count
         fgens[t] = fg
         pg = ProgramGen(T, rng, positive=True, leaf_count=counts.number, multiplier=counts.number,
-                        p_dt=0.0, string_counts=counts.string_count)
+                        p_dt=0.0, string_counts=counts.string_count,
+                        name_pool=['water', 'salt', 'sample 7', 'x'] + HOSTILE_NAMES)
         pgens[t] = pg
 
     def flags():
@@ -484,16 +555,23 @@ def generate(ctx):
         return (hot or 'exp' not in feats) and (dt or 'dt_ion' not in feats)
 
     n = ctx.scale(650, 20000)
-    for j in range(n):
+    nb = ctx.scale(110, 3000)       # additional cases whose counts sit at the notation boundaries of %g
+    for j in range(n + nb):
         tname = 'private' if rng.random() < 0.1 else 'public'
         T = tables[tname]
         hot, dt = flags()
+        counts.boundary = j >= n
+        if counts.boundary:
+            hot = counts.hot = True
         r = j % 10
         for attempt in range(6):
             if r < 4:
                 depth = rng.choice([0, 1, 2, 3]) if not ctx.thorough() else rng.choice([0, 1, 2, 3, 5])
                 node = fgens[tname].compound(0, depth) if rng.random() < 0.93 else fgens[tname].deep(rng.choice([4, 8, 15]))
                 case = {'text': node.text, 'table': tname}
+                if rng.random() < 0.08:
+                    case['name'] = rng.choice(HOSTILE_NAMES)
+                    case['name_how'] = rng.choice(['keyword', 'attribute', 'multiplied'])
                 name = 'parsed'
                 feats = _probe(lambda: [pt.formula(node.text, table=T)])
             elif r < 7:
@@ -503,11 +581,40 @@ def generate(ctx):
                 feats = _probe(lambda: run_program(prog, T))
             else:
                 case = _mixture_case(rng, fgens[tname], counts, m, me, tname, hot)
+                if counts.boundary:
+                    _boundary_mixture(rng, case, counts, m, me)
                 name = 'mixture'
                 feats = _probe(lambda: [_build_mixture(case, T)])
             if admissible(feats, hot, dt):
                 break
         yield name, case
+
+
+def _boundary_mixture(rng, case, counts, m, me):
+    """Re-scale the quantities of a mixture case so that the amounts of substance relative to the smallest
+    one (the printed counts) sit at notation boundaries >= 1 (a dilute component: 1 ppm is a count of 1e6)."""
+    import periodictable as pt
+    from ..gen.formulas import fold
+    parts = case['parts']
+    if len(parts) < 2:
+        return
+    base = rng.randrange(len(parts))
+    scale = 10 ** rng.uniform(-3, 3)
+    for i, part in enumerate(parts):
+        text, q, dens, as_formula = part
+        f = pt.formula(text, table=_s['tables'][case['table']])
+        mass = sum(float(c) * m.atom_mass(k, me) for k, c in _model_atoms(f).items())
+        rr = 1.0 if i == base else float(counts.boundary_value(1, 9)[1])
+        part[1] = rr * mass * scale / (dens if case['kind'] == 'volume' else 1.0)
+    case['kw'].pop('name', None)
+
+
+def _model_atoms(f):
+    from ..atoms import key as akey
+    out = {}
+    for a, c in f.atoms.items():
+        out[akey(a)] = out.get(akey(a), 0) + c
+    return out
 
 
 def _mixture_case(rng, fgen, counts, m, me, tname, hot):
@@ -529,7 +636,7 @@ def _mixture_case(rng, fgen, counts, m, me, tname, hot):
     kw = {}
     r = rng.random()
     if r < 0.12:
-        kw['name'] = rng.choice(['buffer', '5% saline', 'mix A'])
+        kw['name'] = rng.choice(['buffer', '5% saline', 'mix A'] + HOSTILE_NAMES)
     if 0.08 < r < 0.3:
         kw['density'] = round(10 ** rng.uniform(-1, 1.3), 3)
     elif r > 0.95:
